@@ -45,7 +45,8 @@ INJECTED = {}
 
 def injected_exc(kind):
     base = {"RuntimeError": RuntimeError, "ValueError": ValueError, "OSError": OSError,
-            "ZeroDivisionError": ZeroDivisionError, "MemoryError": MemoryError}[kind]
+            "ZeroDivisionError": ZeroDivisionError, "MemoryError": MemoryError,
+            "FloatingPointError": FloatingPointError, "OverflowError": OverflowError}[kind]
     if kind not in INJECTED:
         INJECTED[kind] = _injected(base)
     return INJECTED[kind]
@@ -70,6 +71,9 @@ class SeamState:
         self.open_handles = []
 
     def reset_op(self):
+        self.oom_count = 0
+        self.oom_fire = None     # k-th numpy allocation of this op raises MemoryError
+        self.oom_fired = None
         self.dep_count = 0
         self.dep_fire = None     # k-th seam call of this op raises
         self.dep_mode = "before"
@@ -206,11 +210,32 @@ class _NpProxy(object):
             out[...] = None
         return out
 
+    def _site(self, name):
+        """An allocation site: the k-th one of an operation may fail (fault F8, MemoryError)."""
+        SEAM.oom_count += 1
+        if SEAM.oom_fire is not None and SEAM.oom_count == SEAM.oom_fire:
+            SEAM.oom_fired = name
+            raise injected_exc("MemoryError")("injected allocation failure in numpy.%s (allocation %d)" % (name, SEAM.oom_count))
+
     def empty(self, *a, **kw):
+        self._site("empty")
         return self._fill(self._np.empty(*a, **kw))
 
     def empty_like(self, *a, **kw):
+        self._site("empty_like")
         return self._fill(self._np.empty_like(*a, **kw))
+
+
+def _alloc_method(name):
+    def m(self, *a, **kw):
+        self._site(name)
+        return getattr(self._np, name)(*a, **kw)
+    m.__name__ = name
+    return m
+
+
+for _n in ("zeros", "zeros_like", "ones", "ones_like", "full", "full_like", "linspace", "arange", "array", "copy", "concatenate", "append", "meshgrid"):
+    setattr(_NpProxy, _n, _alloc_method(_n))
 
 
 # --------------------------------------------------------------------------------------
@@ -289,9 +314,14 @@ def sim_open(file, mode="r", *args, **kwargs):
             SEAM.streams[file] = None
             SEAM.open_fired = True
             raise OSError(code, os.strerror(code) + " (injected at open)", file)
-        if "w" not in mode:
+        if "r" in mode and "+" not in mode:
             raise ValueError("sim:// devices are write-only")
+        old = SEAM.streams.get(file)
+        if "x" in mode and old is not None:
+            raise FileExistsError(errno.EEXIST, os.strerror(errno.EEXIST), file)
         raw = SimRaw(file, plan)
+        if "a" in mode and old is not None:
+            raw.data += old.data       # append mode keeps what an earlier dump to the same path wrote
         SEAM.streams[file] = raw
         SEAM.open_handles.append(raw)
         buf = io.BufferedWriter(raw, buffer_size=max(1, int(SEAM.text_buffer)))
